@@ -130,6 +130,7 @@ def run_history(ctx, rng, script=None):
                     rec.append([choose(len(pool)) for _ in range(rng.randint(0, 3))])
                 elif op == 'join':
                     rec.append([choose(len(pool)) for _ in range(rng.randint(0, 4))])
+                    rec.append(rng.choice(["list", "list", "tuple", "generator", "bare-str"]))
                 elif op == 'idx':
                     rec.append(rng.randint(-la - 2, la + 1))
                 elif op == 'slice':
@@ -193,7 +194,18 @@ def run_history(ctx, rng, script=None):
                     if isinstance(a, str):
                         continue
                     items = [pool[i] for i in rec[3]]
-                    r = a.join([x for x, _ in items])
+                    how = rec[4] if len(rec) > 4 else "list"
+                    if how == "bare-str":
+                        # the iterable is a plain string: its characters are the items (as for str.join)
+                        word = "".join(c for _, m in items for c, _ in m)[:6]
+                        items = [(ch, [(ch, sgr.DEFAULT)]) for ch in word]
+                        r = a.join(word)
+                    elif how == "tuple":
+                        r = a.join(tuple(x for x, _ in items))
+                    elif how == "generator":
+                        r = a.join(x for x, _ in items)
+                    else:
+                        r = a.join([x for x, _ in items])
                     mr = []
                     for i, (_, mi) in enumerate(items):
                         if i:
